@@ -220,6 +220,43 @@ def _var_is_first(scope, var_did, set_did):
 # ---------------------------------------------------------------------------
 # (3) next
 
+def _did_in(n, did):
+    return any(x.get("k") == "DeclRefExpr" and x["ref"].get("did") == did for x in astq.walk(n))
+
+
+def _inline_selection(run, rule, f):
+    """build_dispatch_tables selects next without calling best(): the set that decides next is built in place. A member may only
+    leave the set because it was compared with the candidate and lost; an operation that empties or overwrites the set on the
+    strength of a comparison with ONE member (assign / clear / resize / pop_back) removes members that were never compared.
+    Returns True when a verdict (violation) was reached, False when the shape is not understood."""
+    byid, parent = astq.index_nodes(f)
+    stores = [n for n in astq.walk(f["body"]) if n.get("k") == "BinaryOperator" and n.get("op") == "=" and astq.strip(n["c"][0]).get("k") == "UnaryOperator"
+              and astq.strip(n["c"][0]).get("op") == "*" and any(x.get("k") == "MemberExpr" and x.get("member") == "next" for x in astq.walk(n["c"][0]))]
+    if len(stores) != 1:
+        return False
+    # the set: a local vector whose size()/empty() is tested between its declaration and the store
+    sizes = [n for n in astq.walk(f["body"]) if n.get("k") == "CXXMemberCallExpr" and re.search(r"::(size|empty)$", n.get("callee") or "") and astq.strip(n["c"][0]["c"][0] if n["c"][0].get("c") else n["c"][0]).get("k") == "DeclRefExpr"]
+    cands = {}
+    for n in sizes:
+        r = astq.strip(n["c"][0]["c"][0]) if n["c"][0].get("c") else None
+        if r is not None and r.get("k") == "DeclRefExpr" and r["ref"].get("storage") == "local" and "definition" in (r.get("t") or ""):
+            ifs = _enclosing(parent, n, ("IfStmt",))
+            if ifs and any(_in_subtree(i, n) and not _enclosing(parent, i, ("ForStmt", "WhileStmt")) for i in ifs):
+                cands[r["ref"]["did"]] = r["ref"]["name"]
+    verdict = False
+    for did, name in cands.items():
+        for n in astq.walk(f["body"]):
+            if n.get("k") == "CXXMemberCallExpr" and re.search(r"::(assign|clear|resize|pop_back)$", n.get("callee") or "") and _did_in(n["c"][0], did):
+                loops = _enclosing(parent, n, ("CXXForRangeStmt", "ForStmt", "WhileStmt"))
+                guards = [i for i in _enclosing(parent, n, ("IfStmt",)) if any(x.get("k") == "CallExpr" and (x.get("callee") or "").endswith("::is_more_specific") for x in astq.walk(i["cond"]))]
+                if loops and guards:
+                    run.instance(rule, "%s: members leave the set of most specific candidates only when compared and beaten" % short(f), (f["file"], n["l"]), ok=False)
+                    run.violation(rule, "compiler::build_dispatch_tables|next-selection-shrinks", "next is selected in place: `%s` discards every member of `%s` on the strength of one comparison (`%s`); members that are not less specific than the candidate are lost and an ambiguous next resolves to one definition" % (
+                        astq.text(n)[:60], name, astq.text(guards[0]["cond"])[:80]), (f["file"], n["l"]))
+                    verdict = True
+    return verdict
+
+
 def next_rules(run, r_sel, r_always, ast):
     fs = by_name(ast, "build_dispatch_tables")
     if not fs:
@@ -227,6 +264,8 @@ def next_rules(run, r_sel, r_always, ast):
     for f in fs:
         bv = _find_best_var(f["body"])
         if len(bv) != 1:
+            if not bv and _inline_selection(run, r_sel, f):
+                continue
             run.broken.append("%s: expected one best(...) result variable (nexts), found %d" % (short(f), len(bv)))
             continue
         d, comp, idx = bv[0]
@@ -296,6 +335,29 @@ def next_rules(run, r_sel, r_always, ast):
         # candidate filter: is_base(other, &spec)
         calls = [n for n in astq.walk(comp) if n.get("k") == "CallExpr" and re.search(r"::is_base$", n.get("callee") or "")]
         okf = False
+        # ... and nothing else fills (or empties) the candidate list: every definition of the method is filtered, always
+        bestcall = [x for x in astq.walk(d["init"]) if x.get("k") == "CallExpr" and re.search(r"::best$", x.get("callee") or "")][0]
+        carg = astq.strip(bestcall["c"][1]) if len(bestcall.get("c") or []) > 1 else None
+        if carg is not None and carg.get("k") == "DeclRefExpr" and carg["ref"].get("storage") == "local":
+            cdid = carg["ref"]["did"]
+            _, cparent = astq.index_nodes(f)
+            writers = []
+            for n in astq.walk(comp):
+                if n.get("k") == "CallExpr" and any(x.get("k") == "CallExpr" and re.match(r"^std::(back_inserter|inserter|front_inserter)<", x.get("callee") or "") and _did_in(x, cdid) for x in astq.walk(n)) \
+                        and re.match(r"^std::\w+<", n.get("callee") or "") and not re.match(r"^std::(back_inserter|inserter|front_inserter)<", n.get("callee") or ""):
+                    writers.append(n)
+                elif n.get("k") == "CXXMemberCallExpr" and not n.get("cconst") and _did_in(n["c"][0], cdid) and not re.search(r"::(begin|end|size|empty|cbegin|cend)$", n.get("callee") or ""):
+                    writers.append(n)
+                elif n.get("k") in ("BinaryOperator", "CXXOperatorCallExpr") and (n.get("op") == "=" or n.get("oop") == "=") and _did_in((n["c"][0] if n.get("k") == "BinaryOperator" else n["c"][1]), cdid):
+                    writers.append(n)
+            good = [w for w in writers if w.get("k") == "CallExpr" and re.match(r"^std::copy_if<", w.get("callee") or "") and any(c0 is x for c0 in calls for x in astq.walk(w))]
+            extra = [w for w in writers if w not in good]
+            cond = [w for w in good if [i for i in _enclosing(cparent, w, ("IfStmt", "SwitchStmt", "ConditionalOperator")) if _in_subtree(comp, i)]]
+            okw = len(good) == 1 and not extra and not cond
+            run.instance(r_sel, "%s: the candidate list is filled by that filter over all the method's definitions, and by nothing else" % short(f), (f["file"], (good or writers or [bestcall])[0]["l"]), ok=okw)
+            if not okw:
+                run.violation(r_sel, "compiler::build_dispatch_tables|candidate-gathering", "the candidates for next are %s: next must be chosen among ALL definitions that are strictly more general in every position" % (
+                    "also gathered by `%s`" % astq.text(extra[0])[:70] if extra else "only gathered under a condition" if cond else "not gathered by a copy_if over is_base"), (f["file"], (extra or cond or [bestcall])[0]["l"]))
         if len(calls) == 1:
             a0, a1 = astq.strip(calls[0]["c"][1]), astq.strip(calls[0]["c"][2])
             okf = a0.get("k") == "DeclRefExpr" and a0["ref"].get("storage") == "param" and a1.get("k") == "UnaryOperator" and a1.get("op") == "&" and \
@@ -376,7 +438,7 @@ def _classify_cond(cn, block):
 def unit(run, tier=None, ndebug=True):
     from . import witness
     tier = tier or run.tier
-    pols = ["release", "debug", "p_def", "p_map"] if tier == "quick" else ["release", "debug", "p_def", "p_map", "p_ind", "p_proj", "p_nohash", "p_throw"]
+    pols = ["release", "debug", "p_def", "p_map", "p_noerr"] if tier == "quick" else ["release", "debug", "p_def", "p_map", "p_ind", "p_proj", "p_nohash", "p_throw", "p_noerr"]
     src, _ = witness.call_matrix(pols, ["rr", "r"], witness.update_block(pols))
     ast = astq.Ast(common.ast_json(run, src, "compiler_%s_%s" % (tier, "nd" if ndebug else "dbg"), ndebug=ndebug, funcs=COMPILER_FUNCS, cfg=CFG_FUNCS))
     run.units.append({"unit": "compiler AST", "policies": pols, "ndebug": ndebug, "functions_with_body": sum(1 for f in ast.funcs if f.get("body"))})
@@ -479,8 +541,12 @@ def lookup_rules(run, r_proj, r_null, ast):
                     last = (th.get("c") or [None])[-1]
                     if last is None or astq.strip(last).get("k") != "CallExpr" or astq.strip(last).get("callee") != "abort":
                         problems.append("the null branch does not end in abort()")
-                    pol_has_handler = True
-                    calls_err = any(x.get("k") in ("CallExpr", "CXXOperatorCallExpr") and re.search(r"::error$|operator\(\)$", x.get("callee") or "") and any(
+                    # a policy without the error_handler facet has nobody to report to (abort only)
+                    pm = re.search(r"compiler<(.*)>::\w+$", f["name"])
+                    pname = pm.group(1) if pm else ""
+                    bases = ast.policies.get(pname) or ast.policies.get(pname.replace("yorel::yomm2::", "")) or set()
+                    pol_has_handler = not bases or any("error_handler" in b or "vectored_error" in b or "throw_error" in b for b in bases)
+                    calls_err = not pol_has_handler or any(x.get("k") in ("CallExpr", "CXXOperatorCallExpr") and re.search(r"::error$|operator\(\)$", x.get("callee") or "") and any(
                         y.get("k") in ("DeclRefExpr", "MemberExpr") and (astq.refname(y) or "").endswith("::error") for y in astq.walk(x)) for x in astq.walk(th))
                     if not calls_err:
                         problems.append("the policy's error handler is not called in the null branch")
@@ -832,6 +898,39 @@ def hash_rules(run, r_accept, r_same, r_publish, r_checked, r_allids, ast):
         run.instance(r_accept, "%s: an exhausted search reports hash_search_error and aborts (never installs parameters)" % short(f), (f["file"], f["line"]), ok=okx)
         if not okx:
             run.violation(r_accept, "fast_perfect_hash::hash_initialize|exhaustion", "a path leaves the search loop without reporting hash_search_error and aborting", (f["file"], f["line"]))
+        # trial parameters are never live together with a non-zero hash_length: while hash_mult / hash_shift hold trial
+        # values the table is marked invalid (hash_length = 0), so a reported (possibly thrown) failure leaves no hash installed
+        def _member_store(n, name):
+            return n.get("k") == "BinaryOperator" and n.get("op") == "=" and (astq.refname(n["c"][0]) or "").split("::")[-1] == name
+        accept_if = _enclosing(parent, rets[0], ("IfStmt",))[0] if rets and _enclosing(parent, rets[0], ("IfStmt",)) else None
+        zero = [n for n in astq.walk(f["body"]) if _member_store(n, "hash_length") and astq.affine(n["c"][1]) == {}]
+        nonzero = [n for n in astq.walk(f["body"]) if _member_store(n, "hash_length") and astq.affine(n["c"][1]) != {}]
+        trial = [n for n in astq.walk(f["body"]) if (_member_store(n, "hash_mult") or _member_store(n, "hash_shift")) and not (accept_if is not None and _in_subtree(accept_if.get("then"), n))]
+        if f.get("cfg") and trial:
+            cfg = astq.Cfg(f)
+            zb = {cfg.block_of.get(z["id"]) for z in zero} - {None}
+            dom = cfg.dom()
+            bad = []
+            for t in trial:
+                tb = cfg.block_of.get(t["id"])
+                if tb is None:
+                    continue
+                dominated = any(z in dom.get(tb, ()) and (z != tb or any(zz["l"] <= t["l"] for zz in zero if cfg.block_of.get(zz["id"]) == z)) for z in zb)
+                # or: nothing can be reported / returned after the store before the table is invalidated
+                reach = cfg.reachable_from(tb, avoid=zb - {tb}) if not dominated else set()
+                escapes = [b for b in reach if b != tb and (cfg.blocks[b].get("noreturn") or b == cfg.exit or any(
+                    (byid.get(sid) or {}).get("k") in ("CallExpr", "CXXOperatorCallExpr") and any((astq.refname(y) or "").endswith("::error") for y in astq.walk(byid[sid])) for sid in cfg.blocks[b]["stmts"] if sid in byid))]
+                if not dominated and (escapes or tb in zb and False):
+                    bad.append(t)
+            oki = not bad and all(accept_if is not None and _in_subtree(accept_if.get("then"), n) for n in nonzero)
+            run.instance(r_accept, "%s: while trial parameters are being written the table is marked invalid (hash_length = 0)" % short(f), (f["file"], trial[0]["l"]), ok=oki)
+            if not oki:
+                run.violation(r_accept, "fast_perfect_hash::hash_initialize|invalidate", "%s is overwritten with a trial value while hash_length may still hold the previous update's value: a failed search (reported through a throwing handler) leaves a colliding hash installed" % (
+                    (astq.refname(bad[0]["c"][0]) or "?").split("::")[-1] if bad else "hash_length"), (f["file"], (bad[0] if bad else nonzero[0])["l"]))
+        elif not trial:
+            run.instance(r_accept, "%s: parameters are only stored once accepted" % short(f), (f["file"], f["line"]), ok=True)
+        else:
+            run.broken.append("%s: no CFG for the invalidation rule" % short(f))
         # same index expression as hash_type_id; shift / table size from the same M
         idx = [d for n in astq.walk(inner["body"]) if n.get("k") == "DeclStmt" for d in n["decls"] if d.get("init") is not None and _hash_expr(d["init"])]
         owner = re.sub(r"::hash_initialize<.*$", "", f["name"])
@@ -1974,3 +2073,174 @@ def alloc_rules(run, rule, ast):
         run.instance(rule, "%s: the slot stored in the method is the one marked used and reserved in the class" % short(f), (f["file"], st["l"]), ok=okm)
         if not okm:
             run.violation(rule, "compiler::assign_lattice_slots|mark", "set_bit marks %s with the chosen slot, both used_slots and reserved_slots are needed" % (sorted(marked) or "nothing"), (f["file"], st["l"]))
+
+
+# ---------------------------------------------------------------------------
+# (15) augment_methods: the run-time model mirrors the registrations
+
+def _local_refs(n):
+    return [x["ref"]["did"] for x in astq.walk(n) if x.get("k") == "DeclRefExpr" and x["ref"].get("storage") == "local"]
+
+
+def _assign_parts(n):
+    if n.get("k") == "BinaryOperator" and n.get("op") == "=":
+        return n["c"][0], n["c"][1]
+    if n.get("k") == "CXXOperatorCallExpr" and n.get("oop") == "=":
+        return n["c"][1], n["c"][2]
+    return None
+
+
+def model_rules(run, rule, ast, parts=("dummies", "pf", "iter", "vp", "params")):
+    for f in by_name(ast, "augment_methods"):
+        byid, parent = astq.index_nodes(f)
+        body = f["body"]
+        vardefs = {d["did"]: d for n in astq.walk(body) if n.get("k") == "DeclStmt" for d in n["decls"]}
+        loops = [n for n in astq.walk(body) if n.get("k") == "CXXForRangeStmt"]
+        loopvar = {lp["var"]["did"]: lp for lp in loops}
+        assigns = [(n,) + _assign_parts(n) for n in astq.walk(body) if _assign_parts(n)]
+        # ---- the two error cells of a method call the handler of the same name
+        if "dummies" in parts:
+            seen = set()
+            for n, l, r in assigns:
+                lm = _members(l)
+                if lm[:1] == ["pf"] and len(lm) > 1 and lm[1] in ("ambiguous", "not_implemented"):
+                    rm = _members(r)
+                    other = "not_implemented" if lm[1] == "ambiguous" else "ambiguous"
+                    ok = lm[1] in rm and other not in rm and "info" in rm and set(_local_refs(l)) == set(_local_refs(r))
+                    seen.add(lm[1])
+                    run.instance(rule, "%s: the %s cell of a method calls the method's own %s handler" % (short(f), lm[1], lm[1]), (f["file"], n["l"]), ok=ok)
+                    if not ok:
+                        run.violation(rule, "compiler::augment_methods|%s-pf" % lm[1], "the %s cell's function is `%s`" % (lm[1], astq.text(r)[:80]), (f["file"], n["l"]))
+            if seen != {"ambiguous", "not_implemented"}:
+                run.broken.append("%s: assignments of the error cells' functions not found (%s)" % (short(f), sorted(seen)))
+        # ---- iterators over the run-time vectors advance in step with the registration lists
+        iters = {}
+        for did, d in vardefs.items():
+            init = d.get("init")
+            if init is None:
+                continue
+            i0 = astq.strip(init)
+            if i0.get("k") == "CXXMemberCallExpr" and (i0.get("callee") or "").endswith("::begin"):
+                mem = _members(i0["c"][0])
+                if mem[:2] == ["begin", "methods"]:
+                    iters["method"] = did
+                elif mem[:2] == ["begin", "specs"]:
+                    iters["spec"] = did
+        if "iter" in parts or "pf" in parts or "vp" in parts:
+            if set(iters) != {"method", "spec"}:
+                run.broken.append("%s: iterators over methods / specs not recognised" % short(f))
+                continue
+        # loops over the registration lists
+        mloop = [lp for lp in loops if (astq.refname(lp["range"]) or "").endswith("::methods") and astq.strip(lp["range"]).get("k") == "DeclRefExpr"]
+        sloop = [lp for lp in loops if _members(lp["range"])[:1] == ["specs"] and mloop and _refs(lp["range"], mloop[0]["var"]["did"])]
+        if ("iter" in parts or "pf" in parts or "vp" in parts) and (len(mloop) != 1 or len(sloop) != 1):
+            run.broken.append("%s: loops over Policy::methods / a method's definitions not recognised" % short(f))
+            continue
+        if "iter" in parts:
+            for what, lp, it in (("method", mloop[0], iters["method"]), ("definition", sloop[0], iters["spec"])):
+                incs = []
+                for s in lp["body"].get("c") or []:
+                    for x in astq.walk(s):
+                        if (x.get("k") == "CXXOperatorCallExpr" and x.get("oop") in ("++", "--", "+=", "-=", "=") and _refs(x["c"][1], it) and astq.strip(x["c"][1]).get("k") == "DeclRefExpr") or \
+                                (x.get("k") in ("UnaryOperator", "CompoundAssignOperator") and x.get("op") in ("++", "--", "+=", "-=") and _refs(x["c"][0], it)):
+                            incs.append((s, x))
+                ok = len(incs) == 1 and astq.strip(incs[0][0]) is incs[0][1] and incs[0][1].get("oop", incs[0][1].get("op")) == "++"
+                # declared right before its loop (same nesting): one run-time element per registration
+                dparent = None
+                for n in astq.walk(body):
+                    if n.get("k") == "DeclStmt" and any(d["did"] == it for d in n["decls"]):
+                        dparent = parent.get(n["id"])
+                ok = ok and dparent is parent.get(lp["id"])
+                run.instance(rule, "%s: the run-time %s record advances exactly once per registered %s" % (short(f), what, what), (f["file"], lp["l"]), ok=bool(ok))
+                if not ok:
+                    run.violation(rule, "compiler::augment_methods|%s-iter" % what, "the iterator over the run-time %ss is not advanced exactly once, unconditionally, per registered %s" % (what, what), (f["file"], lp["l"]))
+            # info pointers
+            for what, lp, it in (("method", mloop[0], iters["method"]), ("definition", sloop[0], iters["spec"])):
+                cand = [(n, l, r) for n, l, r in assigns if _members(l)[:1] == ["info"] and _refs(l, it)]
+                ok = len(cand) == 1
+                if ok:
+                    r0 = astq.strip(cand[0][2])
+                    ok = r0.get("k") == "UnaryOperator" and r0.get("op") == "&" and _refs(r0, lp["var"]["did"]) and parent.get(cand[0][0]["id"]) is lp["body"]
+                run.instance(rule, "%s: a run-time %s points to the registration it was built from" % (short(f), what), (f["file"], lp["l"]), ok=bool(ok))
+                if not ok:
+                    run.violation(rule, "compiler::augment_methods|%s-info" % what, "`info` of the run-time %s is not (unconditionally) the address of the loop's registration record" % what, (f["file"], lp["l"]))
+        if "pf" in parts:
+            cand = [(n, l, r) for n, l, r in assigns if _members(l)[:1] == ["pf"] and len(_members(l)) == 1 and _refs(l, iters["spec"])]
+            ok = bool(cand)
+            for n, l, r in cand:
+                rm = _members(r)
+                okk = rm[:1] == ["pf"] and (("info" in rm and _refs(r, iters["spec"])) or _refs(r, sloop[0]["var"]["did"]))
+                ok = ok and okk
+            run.instance(rule, "%s: a definition's cell value is the registered function of the same definition" % short(f), (f["file"], cand[0][0]["l"] if cand else f["line"]), ok=ok)
+            if not cand:
+                run.broken.append("%s: assignment of a definition's function pointer not found" % short(f))
+            elif not ok:
+                run.violation(rule, "compiler::augment_methods|spec-pf", "a definition's function pointer is not taken from its own registration (`%s`)" % astq.text(cand[0][2])[:80], (f["file"], cand[0][0]["l"]))
+        if "vp" in parts:
+            pbs = [n for n in astq.walk(body) if n.get("k") == "CXXMemberCallExpr" and (n.get("callee") or "").endswith("::push_back") and _members(n["c"][0])[:2] == ["push_back", "vp"]]
+            got = set()
+            for pb in pbs:
+                owner = "method" if _refs(pb["c"][0], iters["method"]) else "definition" if _refs(pb["c"][0], iters["spec"]) else None
+                if owner is None:
+                    continue
+                src = mloop[0]["var"]["did"] if owner == "method" else sloop[0]["var"]["did"]
+                arg = astq.strip(pb["c"][1])
+                init = vardefs.get(arg["ref"]["did"], {}).get("init") if arg.get("k") == "DeclRefExpr" else arg
+                lps = _enclosing(parent, pb, ("CXXForRangeStmt",))
+                ok = False
+                why = "not recognised"
+                if init is not None and lps:
+                    lp = lps[0]
+                    rng = lp["range"]
+                    rm = _members(rng)
+                    rng_ok = rm[:2] == ["vp_begin", "vp_end"] and _refs(rng, src) and all(d == src for d in _local_refs(rng))
+                    idx = [x for x in astq.walk(init) if x.get("k") == "CallExpr" and re.search(r"::type_index$", x.get("callee") or "")]
+                    key_ok = bool(idx) and _refs(idx[0], lp["var"]["did"]) and "class_map" in _members(init)
+                    uncond = not [i for i in _enclosing(parent, pb, ("IfStmt",)) if _in_subtree(lp["body"], i)]
+                    ok = rng_ok and key_ok and uncond
+                    why = "ranges over `%s`" % astq.text(rng)[:60] if not rng_ok else "class looked up with `%s`" % astq.text(init)[:60] if not key_ok else "conditional"
+                got.add(owner)
+                run.instance(rule, "%s: the classes of a %s's virtual parameters are those of its registered ids, in order" % (short(f), owner), (f["file"], pb["l"]), ok=ok)
+                if not ok:
+                    run.violation(rule, "compiler::augment_methods|%s-vp" % owner, "the parameter classes of a %s are not built from its own id list (%s)" % (owner, why), (f["file"], pb["l"]))
+            if got != {"method", "definition"}:
+                run.broken.append("%s: construction of the parameter class lists not found (%s)" % (short(f), sorted(got)))
+        if "params" in parts:
+            pbs = [n for n in astq.walk(body) if n.get("k") == "CXXMemberCallExpr" and (n.get("callee") or "").endswith("::push_back") and _members(n["c"][0])[:2] == ["push_back", "used_by_vp"]]
+            if len(pbs) != 1:
+                run.broken.append("%s: registration of (method, parameter) pairs in the classes not found" % short(f))
+                continue
+            pb = pbs[0]
+            lps = _enclosing(parent, pb, ("CXXForRangeStmt",))
+            il = [x for x in astq.walk(pb["c"][1]) if x.get("k") in ("InitListExpr", "CXXConstructExpr", "CXXTemporaryObjectExpr") and len(x.get("c") or []) == 2]
+            if len(lps) < 2 or not il:
+                run.broken.append("%s: shape of the used_by_vp registration not recognised" % short(f))
+                continue
+            inner, outer = lps[0], lps[1]
+            ok_loops = _members(inner["range"])[:1] == ["vp"] and _refs(inner["range"], outer["var"]["did"]) and _members(outer["range"])[:1] == ["methods"] \
+                and _refs(pb["c"][0], inner["var"]["did"])
+            m_ok = _refs(il[0]["c"][0], outer["var"]["did"]) and astq.strip(il[0]["c"][0]).get("op") == "&"
+            idx = il[0]["c"][1]
+            cdid = [d for d in _local_refs(idx) if d in vardefs]
+            ok_idx = False
+            if cdid:
+                ctr = _Counter(cdid[0])
+                d = vardefs[cdid[0]]
+                # declared inside the method loop (restarts for every method) with value 0
+                dstmt = [n for n in astq.walk(outer["body"]) if n.get("k") == "DeclStmt" and any(x["did"] == cdid[0] for x in n["decls"])]
+                zero = d.get("init") is not None and astq.affine(d["init"]) == {}
+                try:
+                    v = ctr.eval(idx)
+                    others = [s for s in (inner["body"].get("c") or []) if not _in_subtree(s, pb) and ctr.touches(s)]
+                    for s in others:
+                        if ctr.eval(astq.strip(s)) is None:
+                            raise ValueError("statement on the parameter counter not understood")
+                    ok_idx = bool(dstmt) and parent.get(dstmt[0]["id"]) is outer["body"] and zero and v == 0 and ctr.k == 1
+                except ValueError as e:
+                    run.broken.append("%s: %s" % (short(f), e))
+                    continue
+            ok = ok_loops and m_ok and ok_idx
+            run.instance(rule, "%s: class of parameter #k of a method records the pair (that method, k), k counting from 0 per method" % short(f), (f["file"], pb["l"]), ok=ok)
+            if not ok:
+                run.violation(rule, "compiler::augment_methods|param-index", "the (method, parameter) pair registered in a parameter's class is not (this method, position of the parameter): %s" % (
+                    "loops" if not ok_loops else "method pointer" if not m_ok else "the index is not a per-method counter advanced once per parameter"), (f["file"], pb["l"]))
